@@ -96,6 +96,64 @@ PROPS = {
     ),
 }
 
+HIST_RULE = ("history: random multi-round histories of one or two LLO instances (predecessor/successor sharing a mock retirement cache); "
+             "f in 1..2 (thorough 1..3), n = 3f+1, protocol version 0/1, intervals {1, 5e8, 1e9, 2^40, 2^64-1}; honest observations come from the "
+             "real Plugin.Observation (mock caches), up to f arbitrary observers per ordinary round, and coordinated rounds in which every "
+             "observation is scripted and each motion (remove, add/replace incl. competing definitions, retire, good/forged attestation, "
+             "too-few-values) is carried by exactly f, f+1 or 2f+1 observers; timestamps forward/backward/repeating, sub-second and multi-second; "
+             "targets with additions, in-place replacements (resolution-changing format swaps) and removals; skipped sequence numbers; "
+             "hand-built previous outcomes (any stage string, dangling validity starts, aggregates of every type). Each round is evaluated "
+             "from the implementation's own previous outcome. A case is one history; distinct by SHA-1 of its input.")
+HIST_N = dict(n_quick=96, n_thorough=1500)
+BRANCH_NAMES['history'] = ['rounds', 'channel_reports', 'promotions', 'retirements', 'erroring_rounds']
+
+
+def hist_prop(idx, expl, assume):
+    return dict(
+        level='proof',
+        projections=[dict(name='history', spec_index=idx, **HIST_N)],
+        rule=HIST_RULE,
+        explanation=expl + " The model of Plugin.outcome / Plugin.reports (coq/theories/Outcome.v) is run by Coq on every round of generated "
+                    "histories from the implementation's own previous outcome and compared with the decoded Outcome result and the Report "
+                    "structs handed to the report codecs; the property predicate is evaluated on the implementation's outcomes/reports.",
+        assumptions=[assume, 'libocr delivers only observations that passed ValidateObservation, at most one per oracle'],
+        level_text="Coq theorems about the model of the LLO outcome/report functions over all states, observation lists and histories; model tied "
+                   "to llo.Plugin.Outcome/Reports by a per-round differential check evaluated inside Coq.",
+        level_note="Trusted: Coq kernel + vm_compute; hand-written model (Outcome.v) of plugin_outcome.go/plugin_reports.go incl. the outcome "
+                   "codec's effect on the state; std++ gmap; harness mocks (caches, recording codec). Axioms: none.",
+    )
+
+
+PROPS['C03'] = hist_prop(2,
+    "Theorems C03_* prove over arbitrary histories of committed outcomes (any timestamps, any votes, no honesty assumption) that "
+    "consecutive reports of a channel chain: start = previous observation timestamp (floored to seconds under version 0), start < end, "
+    "different seconds for one-second formats, hence adjacent disjoint on-chain windows, as long as the channel is not voted out and "
+    "no promotion intervenes (C04 covers that link).",
+    "accepted configurations: (version 0, interval 0) or (version 1, interval >= 1), as DecodeOffchainConfig enforces after the D5 repair")
+PROPS['C04'] = hist_prop(3,
+    "Theorems C04_* prove: the predecessor's recorded validity start is where its last report ended, whatever follows (incl. "
+    "retirement); a retired instance emits only the retirement report carrying those starts; promotion needs a verified attestation "
+    "and adopts its starts; the successor's first report of a listed channel starts exactly there however late the channel is "
+    "defined; non-production reports are specimen.",
+    "attestation verification (CheckAttestedRetirementReport) is external and assumed sound: GoodAttest va = the predecessor's report")
+PROPS['C05'] = hist_prop(4,
+    "Theorems C05_* prove for any previous outcome and any observation list: initial stage by presence of a predecessor; stage only "
+    "moves staging -> production -> retired; a retired outcome stays retired with the same channel set and unchanged existing "
+    "validity starts, emits exactly the retirement report and no channel report; specimen flag = not production.",
+    "none beyond the model/implementation correspondence")
+PROPS['C06'] = hist_prop(5,
+    "Theorems C06_* prove for any f, previous outcome and observation list: every channel addition/replacement/removal has more than "
+    "f votes for exactly that change among the accepted observations; retirement needs more than f retire votes; promotion needs a "
+    "verified attestation carried by an observation (and a configured predecessor); with at most f faulty observers and correct "
+    "ones not voting nothing changes; a retired instance ignores all votes.",
+    "MakeChannelHash (SHA-256) is collision-free on the definitions voted in a round (votes are grouped by (id, definition))")
+PROPS['C18'] = hist_prop(7,
+    "Theorems C18_* prove for one outcome step from any state: a timestamped aggregate of a still-referenced (stream, aggregator) "
+    "pair is kept, replaced by a strictly newer one, or by a non-timestamped value only if aggregation yields one; when aggregation "
+    "fails it is carried forward bit for bit; aggregates of unreferenced pairs are dropped.",
+    "none beyond the model/implementation correspondence")
+PROPS['C02']['projections'].append(dict(name='history', spec_index=1, n_quick=60, n_thorough=1000))
+
 
 def load_known_findings(root):
     p = os.path.join(root, 'known_findings.jsonl')
